@@ -16,7 +16,7 @@ from mc.refmodel import Model
 from sismic.interpreter import Interpreter
 from sismic.clock import SynchronizedClock
 
-DEPTH = {'quick': 9, 'thorough': 12}
+DEPTH = {'quick': 9, 'thorough': 60}
 CAP = 4
 
 
@@ -341,7 +341,7 @@ def run(tier, seed):
                                        {'check': 'C13', **v}))
     cov = {
         'programs': len(CHARTS), 'states': agg.states, 'transitions': agg.transitions,
-        'traces_validated_against_impl': agg.transitions, 'exhaustive': False, 'depth': depth,
+        'traces_validated_against_impl': agg.transitions, 'exhaustive': bool(agg.closed), 'depth': depth, 'closed_at_depth': agg.max_depth if agg.closed else None,
         'outcomes': dict(agg.outcomes),
         'samples': [{'chart': k, 'transitions': [(x['source'], x['target'], x['event'], x['tguard'])
                                                  for x in CHARTS[k]()['transitions']]} for k in CHARTS],
